@@ -63,6 +63,9 @@ def run(ctx):
             ctx.nontrivial(("m2", e["id"]))
     ctx.lane("M2", raised=sum(1 for e in events if e["st"] != "ok"), rows=sum(len(e["rows"]) for e in events),
              rows_at_start0=sum(1 for e in events for r in e["rows"] if r["start"] == 0))
+    if not ctx.quick:
+        from .. import suite
+        suite.suite_lane(ctx, ["tests/test_seqlet.py"], ["seqlet."], clauses=("tensor",), workers=2)
     ctx.assumptions += ["tracks are integer-valued so attribution sums are exact in float32/float64",
                         "a raise (e.g. the TF-MoDISco caller on degenerate tracks) is counted, not judged: the statements concern returned rows",
                         "p-values are abstracted to 'p <= threshold' and their dense rank"]
